@@ -105,9 +105,7 @@ func deltaFor(mode, kind int) bool {
 // result streams
 
 type mpoint struct {
-	sum   float64
-	count uint64
-	last  float64
+	fold
 }
 
 type mstream struct {
@@ -143,6 +141,8 @@ type mstream struct {
 	scopeCount uint64
 
 	fcache map[int]string
+
+	classes []string // labels collected while comparing
 
 	// bookkeeping for classes
 	rawPerKey     map[string]map[int]bool
@@ -422,9 +422,7 @@ func (s *mstream) measure(setIdx int, set []vk.KV, rawKey string, v float64) {
 		p = &mpoint{}
 		s.pts[key] = p
 	}
-	p.sum += v
-	p.count++
-	p.last = v
+	p.add(v)
 	s.scopeSum += v
 	s.scopeCount++
 	s.scopeEver = true
@@ -434,6 +432,7 @@ type expPoint struct {
 	val   float64 // sum value / gauge value
 	count uint64  // histograms
 	sum   float64 // histograms
+	f     *fold   // everything folded into the point (read right after collect)
 }
 
 // collect returns what one collection must report and moves the stream to
@@ -441,7 +440,7 @@ type expPoint struct {
 func (s *mstream) collect() (exp map[string]expPoint, scopeSum float64, scopeCount uint64) {
 	exp = map[string]expPoint{}
 	for k, p := range s.pts {
-		e := expPoint{count: p.count, sum: p.sum}
+		e := expPoint{count: p.count, sum: p.sum, f: &p.fold}
 		switch s.agg.kind {
 		case aSum:
 			e.val = p.sum
